@@ -373,6 +373,15 @@ def h_lex_string(k: int, triples: bool, nf: int, ns: int, **sym):
         mark('third-line')
     require(got == want, 'tokens of a string input differ from the '
             'documented lexical grammar / line numbering', text, got, want)
+    # the same text under the other pattern, in the same process: the result
+    # depends on (text, pattern) only
+    want2 = []
+    for ln, line in enumerate(ref_split_lines(text), 1):
+        want2 += [(t, x, ln, o) for t, x, o in ref_lex_line(line, not triples)]
+    got2 = [(t.type, t.text, t.lineno, t.offset)
+            for t in lex(text, pattern=PENMAN_RE if triples else TRIPLE_RE)]
+    require(got2 == want2, 'tokens under the other pattern differ (after '
+            'lexing the same text with the first)', text, got2, want2)
 
 
 h_lex_string.params_for = lambda fixed: {
